@@ -143,8 +143,15 @@ def check_cases(ctx, cases, lmplz, model):
             lines.append(kn.model_line("I", c, numbered[0], numbered[1]))
     mout = vlib.run_lines(model, lines, timeout=ctx.pick(600, 3000)) if model else ["MODEL-BROKEN"] * len(lines)
     res = []
+    hangs = 0
     for i, (c, mo) in enumerate(zip(cases, mout)):
-        run = kn.run_lmplz(lmplz, c, ctx.scratch, i)
+        if hangs >= 2:
+            break          # lmplz keeps hanging: reported below, the remaining runs would only burn the time budget
+        run = kn.run_lmplz(lmplz, c, ctx.scratch, i, tmo=ctx.pick(30, 120))
+        if run.hung:
+            hangs += 1
+            ctx.report("spec:no-termination", "lmplz does not terminate (killed after %d s; corpora of this size take well under a second)" % ctx.pick(30, 120),
+                       {"case": c.to_json(), "lmplz_cmd": " ".join(run.cmd), "stderr_tail": run.err[-300:]})
         try:
             if model is None:
                 # the model does not build: judge with the oracle only
@@ -280,6 +287,8 @@ def run(ctx):
                                                       any(kn.murmur64a(t) < kn.murmur64a(b"<s>") for t in set(c.data.split()) if t not in kn.SPECIALS)),
         "interpolate_unigrams_0": sum(1 for c in cases if not c.interp),
         "short_and_interrupted_io(shim, every read/write/pread/pwrite)": sum(1 for c in cases if c.io),
+        "corpus_on_stdin(pipe)": sum(1 for c in cases if c.stdin),
+        "corpus_on_stdin_with_short_reads(window ends anywhere)": sum(1 for c in cases if c.stdin and c.io),
         "arpa_to_a_pipe_with_short_writes": sum(1 for c in cases if c.io and c.io[2]),
         "word_longer_than_8192_bytes": sum(1 for c in cases if any(len(t) > 8192 for t in c.data.split())),
         "word_of_8191_or_8192_bytes": sum(1 for c in cases if any(len(t) in (8191, 8192) for t in c.data.split()))}
